@@ -17,7 +17,8 @@ git -C /repo worktree add -q --detach "$wt" HEAD || exit 2
 cleanup() { git -C /repo worktree remove --force "$wt" 2>/dev/null; rm -rf "$wt" /var/tmp/sw/$id.out /var/tmp/sw/$id.work /var/tmp/sw/$id.demo; }
 trap cleanup EXIT
 tests=$(grep -oE '^func (Test[A-Za-z0-9_]*)' "$dir/demo_test.go" | awk '{print $2}' | paste -sd'|')
-rundemo() { (cd "$wt/$pkgdir" && go test -count=1 -run "^($tests)\$" . >/var/tmp/sw/$id.demo 2>&1 && echo pass || echo FAIL); }
+racef=""; head -5 "$dir/demo_test.go" | grep -q -- '-race' && racef="-race"
+rundemo() { (cd "$wt/$pkgdir" && go test $racef -count=1 -run "^($tests)\$" . >/var/tmp/sw/$id.demo 2>&1 && echo pass || echo FAIL); }
 if [ "${CONFIRM:-0}" = 1 ]; then
   # demo passes on the unchanged tree
   cp "$dir/demo_test.go" "$wt/$pkgdir/zz_seeded_demo_test.go"
